@@ -51,6 +51,15 @@ def cases(tier, seed, shard, nshards):
             nchild = rng.choice([1, 2, 3, 4])
             ks = gen.keys_seq(rng, 5)
             ops = [rng.randrange(nchild) for _ in range(rng.randint(0, 3 * len(ks) + 4))]
+            if rng.random() < 0.5:
+                # some children are closed (dropped) midway - but only ones that were advanced before:
+                # a child closed before its first advance is the recorded known finding of C04/C09
+                for _ in range(rng.randint(1, 2)):
+                    if ops:
+                        at = rng.randrange(len(ops))
+                        started = [c for c in set(o for o in ops[:at] if isinstance(o, int))]
+                        if started:
+                            ops.insert(at, ["close", rng.choice(started)])
             spec = {"tool": "tee", "srcs": [ks], "fns": [], "params": {"n": nchild}, "ops": ops}
         elif name in ("all", "any"):
             spec = {"tool": name, "srcs": [gen.keys_seq(rng, 8, 2)], "fns": [], "params": {}}
